@@ -36,13 +36,14 @@ const strictModelEquality = false
 
 // Case is one replayable evaluation.
 type Case struct {
-	Mode  string `json:"mode"`            // "lex" | "fs"
-	Base  string `json:"base"`            // fs mode: "$T" stands for the temporary root
-	Path  []byte `json:"path"`            // raw URL path (base64 in JSON: arbitrary bytes)
-	PathQ string `json:"path_quoted"`     // the same, Go-quoted, for the reader
-	Dir   string `json:"dir,omitempty"`   // fs mode: directory the base denotes, relative to $T
-	Chdir string `json:"chdir,omitempty"` // fs mode: working directory relative to $T
-	Got   string `json:"got,omitempty"`   // informational
+	Mode  string `json:"mode"`                  // "lex" | "fs" | "hist" (a sequence of calls in one process)
+	Seq   []Call `json:"seq,omitempty"`         // hist mode: the calls, in order
+	Base  string `json:"base,omitempty"`        // fs mode: "$T" stands for the temporary root
+	Path  []byte `json:"path,omitempty"`        // raw URL path (base64 in JSON: arbitrary bytes)
+	PathQ string `json:"path_quoted,omitempty"` // the same, Go-quoted, for the reader
+	Dir   string `json:"dir,omitempty"`         // fs mode: directory the base denotes, relative to $T
+	Chdir string `json:"chdir,omitempty"`       // fs mode: working directory relative to $T
+	Got   string `json:"got,omitempty"`         // informational
 }
 
 type stats struct {
@@ -68,6 +69,8 @@ type runner struct {
 	st    *stats
 	env   *fsEnv
 	notes []string
+
+	histSeen map[string]Call // history shards: concatenation base+path -> last call made with it in this process
 }
 
 func (r *runner) fs() (*fsEnv, error) {
@@ -92,6 +95,9 @@ var errHarness = errors.New("harness")
 // runCase evaluates one case. key == "" means no refuting observation. herr != nil means the
 // harness itself could not run the case (inconclusive, never a violation).
 func (r *runner) runCase(cs *Case) (key, expected, observed string, herr error) {
+	if cs.Mode == "hist" {
+		return r.runHist(cs)
+	}
 	st := r.st
 	p := string(cs.Path)
 	base := cs.Base
@@ -213,7 +219,7 @@ type mon struct{}
 func (mon) Name() string { return "urlpath" }
 
 func (mon) Level(string) (string, string) {
-	return "exploration", "exhaustive: every string up to the stated length over {'/','.','a','\\'} x 12 spellings of the base (lexical model) and x 5 absolute + 7 relative (after chdir) spellings of a base inside a temporary tree with secrets outside (kernel-judged: inode and content reached by stat/open of the result); plus seeded random longer paths (segments '..', '...', '. .', '%2e%2e', backslash forms, SECRET, arbitrary NUL-free bytes) and random bases. distinct_nontrivial = distinct URL paths whose evaluation discards at least one '..' at the root of the URL path, i.e. that try to climb out of the base (lexical shards), and distinct (base, path) pairs of that kind (canary shards)"
+	return "exploration", "exhaustive: every string up to the stated length over {'/','.','a','\\'} x 12 spellings of the base (lexical model) and x 5 absolute + 7 relative (after chdir) spellings of a base inside a temporary tree with secrets outside (kernel-judged: inode and content reached by stat/open of the result); plus seeded random longer paths (segments '..', '...', '. .', '%2e%2e', backslash forms, SECRET, arbitrary NUL-free bytes) and random bases. distinct_nontrivial = distinct URL paths whose evaluation discards at least one '..' at the root of the URL path, i.e. that try to climb out of the base (lexical shards), and distinct (base, path) pairs of that kind (canary shards). History shards: sequences of calls in one process, each call judged by the same oracles - for bases with '..' inside and every textual cut base = A + rest at a '/', the two different questions (base, p) and (A, rest+p) with the same concatenation, back to back (each twice), in both orders (separate processes) and in batches of 40 / 250 such groups (first calls of all groups, then the counterpart calls), lexically and inside the canary tree; plus random segment strings all of whose cuts are asked in random order; distinct_nontrivial there = distinct colliding pairs"
 }
 
 func (mon) Assumptions(string) []string {
@@ -229,7 +235,7 @@ func (mon) Assumptions(string) []string {
 
 func (mon) Finish(prop, tier string, m *drv.Merged) []string {
 	var out []string
-	need := []string{"fs_selftest_ok", "fs_hit_inside_below_base", "fs_read_inside", "fs_dotfree_entry_checked", "climb_attempts", "dotfree_paths", "fs_rel_cases", "fs_abs_cases", "exact_model_agreement"}
+	need := []string{"fs_selftest_ok", "fs_hit_inside_below_base", "fs_read_inside", "fs_dotfree_entry_checked", "climb_attempts", "dotfree_paths", "fs_rel_cases", "fs_abs_cases", "exact_model_agreement", "hist_calls", "hist_colliding_pairs", "hist_fs_calls"}
 	for _, k := range need {
 		if m.Sum[k] == 0 {
 			out = append(out, "observed no "+k)
@@ -239,7 +245,9 @@ func (mon) Finish(prop, tier string, m *drv.Merged) []string {
 }
 
 type shardArgs struct {
-	Kind   string `json:"kind"` // "lex-exh" | "lex-rand" | "fs-exh" | "fs-rand"
+	Kind   string `json:"kind"`            // "lex-exh" | "lex-rand" | "fs-exh" | "fs-rand" | "hist-lex" | "hist-fs" | "hist-split"
+	Rev    bool   `json:"rev,omitempty"`   // hist: the call on the textual prefix of the base comes first
+	Batch  int    `json:"batch,omitempty"` // hist: number of pairs whose first calls precede their second calls
 	Rel    bool   `json:"rel,omitempty"`
 	MaxLen int    `json:"max_len,omitempty"`
 	Part   int    `json:"part"`
@@ -278,6 +286,22 @@ func (mon) Plan(prop, tier string, seed int64) []drv.Shard {
 	for p := 0; p < c.fsRelParts; p++ {
 		add(fmt.Sprintf("fs-rel-exh-%d", p), true, shardArgs{Kind: "fs-exh", Rel: true, MaxLen: c.fsLen, Part: p, Parts: c.fsRelParts})
 		add(fmt.Sprintf("fs-rel-rand-%d", p), true, shardArgs{Kind: "fs-rand", Rel: true, Part: p, Parts: c.fsRelParts, Count: c.fsRelRand / c.fsRelParts})
+	}
+	// history shards: one process per (order, distance), so that every colliding pair is fresh
+	hl, hs, hsParts := 3, 6000, 2
+	if tier == "thorough" {
+		hl, hs, hsParts = 5, 400000, 8
+	}
+	for _, rev := range []bool{false, true} {
+		for _, batch := range []int{1, 40, 250} {
+			n := fmt.Sprintf("%s-d%d", map[bool]string{false: "fwd", true: "rev"}[rev], batch)
+			add("hist-lex-"+n, false, shardArgs{Kind: "hist-lex", Rev: rev, Batch: batch, MaxLen: hl})
+			add("hist-fs-abs-"+n, false, shardArgs{Kind: "hist-fs", Rev: rev, Batch: batch, MaxLen: hl})
+			add("hist-fs-rel-"+n, true, shardArgs{Kind: "hist-fs", Rel: true, Rev: rev, Batch: batch, MaxLen: hl})
+		}
+	}
+	for p := 0; p < hsParts; p++ {
+		add(fmt.Sprintf("hist-split-%d", p), false, shardArgs{Kind: "hist-split", Part: p, Parts: hsParts, Count: hs / hsParts})
 	}
 	return out
 }
@@ -457,7 +481,11 @@ func (mn mon) Run(sh drv.Shard, c *drv.Ctx) {
 	defer func() { rn.env.close() }()
 	bad := 0
 	exec := func(cs Case) bool {
-		c.Progress(cs.Mode+" "+q(cs.Base)+" "+q(string(cs.Path)), false)
+		if cs.Mode == "hist" {
+			c.Progress(fmt.Sprintf("hist of %d calls starting (%s, %s)", len(cs.Seq), q(cs.Seq[0].Base), q(string(cs.Seq[0].Path))), false)
+		} else {
+			c.Progress(cs.Mode+" "+q(cs.Base)+" "+q(string(cs.Path)), false)
+		}
 		k, e, o, herr := rn.runCase(&cs)
 		if herr != nil {
 			c.Inconclusive(herr.Error())
@@ -465,7 +493,9 @@ func (mn mon) Run(sh drv.Shard, c *drv.Ctx) {
 		}
 		c.Eval(1)
 		if k != "" {
-			cs.PathQ = strconv.QuoteToASCII(string(cs.Path))
+			if cs.Mode != "hist" {
+				cs.PathQ = strconv.QuoteToASCII(string(cs.Path))
+			}
 			c.Violate(k, cs, e, o)
 			bad++
 			return bad < 5
@@ -551,6 +581,44 @@ func (mn mon) Run(sh drv.Shard, c *drv.Ctx) {
 				break
 			}
 		}
+	case "hist-lex", "hist-fs":
+		groups, pairs := histGroups(a.Kind == "hist-fs", a.Rel, a.MaxLen)
+		for _, g := range groups {
+			for _, oa := range g.onA {
+				c.DistinctStr("hist\x00" + g.onB.Base + "\x00" + oa.Base + "\x00" + string(g.onB.Path))
+			}
+		}
+		st.add("hist_colliding_pairs", int64(pairs))
+		for i, cs := range histCases(groups, a.Rev, a.Batch) {
+			if i == 0 {
+				sq := cs.Seq[:min(4, len(cs.Seq))]
+				var ss []string
+				for _, cl := range sq {
+					ss = append(ss, fmt.Sprintf("(%s, %s)", strconv.QuoteToASCII(cl.Base), strconv.QuoteToASCII(string(cl.Path))))
+				}
+				c.Sample(map[string]any{"mode": "hist", "shard": sh.Name, "calls_in_history": len(cs.Seq), "first_calls": ss})
+			}
+			n := len(cs.Seq)
+			c.MaxOf("hist_history_len", int64(n))
+			if !exec(cs) {
+				break
+			}
+			c.Eval(int64(n - 1))
+		}
+		if a.Kind == "hist-fs" {
+			st.add("hist_fs_calls", st.m["hist_calls"])
+		}
+	case "hist-split":
+		r := rand.New(rand.NewSource(sh.Seed*1000003 + 15485863 + int64(a.Part)))
+		for i := 0; i < a.Count; i++ {
+			cs := randSplitCase(r)
+			c.DistinctStr("split\x00" + cs.Seq[0].concat())
+			n := len(cs.Seq)
+			if !exec(cs) {
+				break
+			}
+			c.Eval(int64(n - 1))
+		}
 	}
 	for k, v := range st.m {
 		if v != 0 {
@@ -568,7 +636,7 @@ func (mn mon) Replay(v drv.Violation, c *drv.Ctx) {
 		c.Inconclusive("replay: cannot decode case: " + err.Error())
 		return
 	}
-	if cs.Mode != "lex" && cs.Mode != "fs" {
+	if cs.Mode != "lex" && cs.Mode != "fs" && !(cs.Mode == "hist" && len(cs.Seq) > 0) {
 		c.Inconclusive("replay: not a (base, path) case (crash records are replayed by re-running the check)")
 		fmt.Fprintln(os.Stderr, "replay: the recorded case is not a (base, path) case")
 		return
